@@ -82,17 +82,20 @@ def optManip (m : Option Manipulator) (f : Function) : String :=
 /-- doc comment lines -/
 def docLines (f : Function) : String := concatMap (fun c => c ++ "\n") f.comments
 
-/-- `func (recv T) Name(` … `) ` — exactly the separator logic of `FuncToString` -/
+def param (v : Var) : String := v.name ++ " " ++ v.fullType
+
+/-- the parameter list: destination first (as a pointer) in arg style, then the source unless it is
+the receiver, then the additional arguments in order -/
+def sigParams (f : Function) : List String :=
+  (if f.dstVarStyle == .arg then [f.dst.name ++ " *" ++ f.dst.ptrLessFullType] else []) ++
+  (if f.receiver == "" then [param f.src] else []) ++
+  f.additionalArgs.map param
+
+/-- `func (recv T) Name(p₁, …, pₙ) ` -/
 def sigHead (f : Function) : String :=
   "func " ++
   (if f.receiver != "" then "(" ++ f.receiver ++ " " ++ f.src.fullType ++ ") " else "") ++
-  f.name ++ "(" ++
-  (if f.dstVarStyle == .arg then
-     f.dst.name ++ " *" ++ f.dst.ptrLessFullType ++ (if f.receiver == "" then ", " else "")
-   else "") ++
-  (if f.receiver == "" then f.src.name ++ " " ++ f.src.fullType else "") ++
-  concatMap (fun a => ", " ++ a.name ++ " " ++ a.fullType) f.additionalArgs ++
-  ") "
+  f.name ++ "(" ++ joinSep ", " (sigParams f) ++ ") "
 
 /-- results and the opening of the body, including the allocation `dst = &T{}` -/
 def sigTail (f : Function) : String :=
